@@ -463,7 +463,7 @@ pub fn run(id: &str, data: &[u8]) -> Option<Outcome> {
             let storage = u.bool();
             let sched = schedule(u);
             // (reader_kind 0 = ::new allocates the 10 MiB default buffer per reader: rare here)
-            let reader_kind = [1u8, 2, 1, 2, 1, 2, 1, 2, 1, 2, 1, 2, 1, 2, 3, 0][u.below(16)];
+            let reader_kind = [1u8, 2, 4, 5, 4, 5, 1, 2, 4, 5, 4, 5, 4, 5, 3, 0][u.below(16)];
             let filter = if u.chance(192) { 0 } else { 1 + u.below(7) as u8 };
             let stream = stream(u, storage);
             if id == "C07" {
